@@ -250,3 +250,50 @@ def run_fnf(prog, schedules, tag):
         if len(p) == 4:
             res.append((p[0], p[1], p[2] == "1", int(p[3])))
     return res
+
+
+def run_pairs(progs, tag, deadline=None):
+    """vx pairs on every program: {id: dict(indep, dep, bad, asym, pairs, violations[(kind, prefix, a, b, ta, tb, what)], cells{cell:n}, status)}"""
+    binary = vx_binary()
+    d = common.tmpdir("vxp-" + tag)
+    n = min(common.NCPU, max(1, len(progs)))
+    jobs = []
+    for i in range(n):
+        part = progs[i::n]
+        if not part:
+            continue
+        pf, of = os.path.join(d, "p%d.txt" % i), os.path.join(d, "o%d.txt" % i)
+        with open(pf, "w") as f:
+            for pid, prog in part:
+                f.write(prog_text(pid, prog))
+        env = dict(os.environ)
+        if deadline:
+            env["VX_DEADLINE"] = str(int(deadline))
+        jobs.append(([binary, "pairs", pf, of], env, of))
+    import concurrent.futures as cf
+    with cf.ThreadPoolExecutor(max_workers=len(jobs)) as ex:
+        list(ex.map(lambda j: subprocess.run(j[0], env=j[1], stdout=subprocess.PIPE, stderr=subprocess.PIPE).returncode, jobs))
+    out = {}
+    for j in jobs:
+        cur = None
+        for line in open(j[2], errors="replace"):
+            line = line.rstrip("\n")
+            if line.startswith("P "):
+                cur = dict(id=line[2:].strip(), indep=0, dep=0, bad=0, asym=0, pairs=0, violations=[], cells={}, status="CRASH", errors=[])
+                out[cur["id"]] = cur
+            elif cur is None:
+                continue
+            elif line.startswith("I "):
+                v = list(map(int, line.split()[1:]))
+                cur.update(indep=v[0], dep=v[1], bad=v[2], asym=v[3], pairs=v[4])
+            elif line.startswith("V "):
+                cur["violations"].append(tuple(line[2:].split("|")))
+            elif line.startswith("L "):
+                c, k = line[2:].rsplit(" ", 1)
+                cur["cells"][c] = int(k)
+            elif line.startswith("X "):
+                cur["errors"].append(line)
+            elif line.startswith("R "):
+                cur["status"] = line.split()[4]
+    shutil.rmtree(d, ignore_errors=True)
+    return out
